@@ -19,6 +19,16 @@ use crate::scenario::SizeMode;
 
 thread_local! {
     static LAST_PANIC: RefCell<Option<String>> = const { RefCell::new(None) };
+    /// > 0 while code under test runs inside `guarded` / the executors' catch_unwind
+    static GUARD_DEPTH: std::cell::Cell<u32> = const { std::cell::Cell::new(0) };
+}
+
+pub fn enter_guard() {
+    GUARD_DEPTH.with(|d| d.set(d.get() + 1));
+}
+
+pub fn leave_guard() {
+    GUARD_DEPTH.with(|d| d.set(d.get().saturating_sub(1)));
 }
 
 /// Install a panic hook that records the message per thread instead of printing it.
@@ -35,6 +45,10 @@ pub fn install_quiet_panic_hook() {
             .location()
             .map(|l| format!("{}:{}", l.file(), l.line()))
             .unwrap_or_default();
+        // a panic outside guarded code is a defect of the harness itself: say so loudly
+        if GUARD_DEPTH.with(|d| d.get()) == 0 {
+            eprintln!("harness error: panic in the simulator itself: {} @ {}", first_line(&msg), loc);
+        }
         LAST_PANIC.with(|p| *p.borrow_mut() = Some(format!("{} @ {}", first_line(&msg), loc)));
     }));
 }
@@ -56,7 +70,10 @@ pub fn take_panic_msg() -> String {
 
 /// Run f, converting a panic into Err(message).
 pub fn guarded<T>(f: impl FnOnce() -> T) -> Result<T, String> {
-    match catch_unwind(AssertUnwindSafe(f)) {
+    enter_guard();
+    let r = catch_unwind(AssertUnwindSafe(f));
+    leave_guard();
+    match r {
         Ok(v) => Ok(v),
         Err(_) => Err(take_panic_msg()),
     }
